@@ -265,7 +265,10 @@ func implRun(fields []string) (resp string) {
 			curShared.files[fields[3]] = inputs
 		}
 	}
-	ev, err := lang.EvalProgram(string(prog), inputs, sels, &out, false)
+	// flag z: the run is made with fuzzing=true, as the project's own fuzz targets call the
+	// library (loops stop with a runtime error after 10 000 rounds). The model has no such mode:
+	// cases with this flag are implementation-only (or carry a ModelReq without it)
+	ev, err := lang.EvalProgram(string(prog), inputs, sels, &out, strings.Contains(fields[4], "z"))
 	// a run must not modify its arguments: reported only when it did
 	argsmod := ""
 	if len(sels) != len(wantSels) {
